@@ -85,6 +85,8 @@ func (server *SugarDB) Flush(database int) {
 	defer server.keysWithExpiry.rwMutex.Unlock()
 
 	if database == -1 {
+		// Nothing is stored any more.
+		server.memUsed = 0
 		for db, _ := range server.store {
 			// Clear db store.
 			clear(server.store[db])
@@ -105,6 +107,15 @@ func (server *SugarDB) Flush(database int) {
 	// A database that was never written to has no store or caches yet: nothing to flush.
 	if _, ok := server.store[database]; !ok {
 		return
+	}
+
+	// Take the flushed entries out of the memory tracker.
+	for key, entry := range server.store[database] {
+		if mem, err := entry.GetMem(); err == nil {
+			server.memUsed -= mem
+			server.memUsed -= int64(unsafe.Sizeof(key))
+			server.memUsed -= int64(len(key))
+		}
 	}
 
 	// Clear db store.
